@@ -15,13 +15,13 @@ META = {
                  "proofs over an abstract REPL machine for all histories; the generated code is tied to the machine by "
                  "computation on tables and to the real REPL by differential runs on scripted sessions; oracle on the real "
                  "REPL fed line by line",
-    "level_text": "coq/Props/C40.v: for every history of inputs (any length, any values, failing and incomplete inputs "
-                  "interleaved in any way): runsource asks for more exactly on incomplete input; *1 *2 *3 are the results of "
-                  "the latest three inputs that were evaluated; *e is the latest visible failure; a failed or incomplete "
-                  "input leaves *1 *2 *3 unchanged, so no result occupies two of them (C40_history_vars, C40_no_repeat). "
-                  "That the generated code implements the machine is checked by computation on 1328 single steps and 820 "
-                  "sessions (C40_generated_code_implements_step_partial) and on regression sessions (C40_regressions); "
-                  "the lift to all values is not proved.",
+    "level_text": "coq/Props/C40.v: C40_generated_code_implements_machine -- for every REPL state (all values, all other "
+                  "variables and heap objects), every input (any value / exception object), every output script and every "
+                  "sane class matcher (the generated class table is one), running the generated runsource returns and "
+                  "leaves exactly what the abstract machine `step` computes, and so do sessions of any length; on the "
+                  "machine, for ALL histories: more-input iff incomplete, *1 *2 *3 = the latest three evaluated results, *e = "
+                  "the latest visible failure, a failed or incomplete input leaves *1 *2 *3 unchanged, no result occupies two "
+                  "slots (C40_history_vars, C40_no_repeat). No bound on values, heap, session length.",
     "level_note": "Trusted: Coq kernel (vm_compute for the tables and the witness); translator/state_py.py + state_repl.py; "
                   "the fragment semantics (validated against CPython by the scripted-session correspondence of this check); "
                   "the scripting of the opaque parts (compile/eval/output_fn) by `input`s. Printing of results and "
@@ -29,15 +29,17 @@ META = {
 }
 
 TRUSTED = [
-    "Coq 8.16.1 kernel (coqc, full .vo); vm_compute for the sweep tables and the regression sessions",
+    "Coq 8.16.1 kernel (coqc, full .vo); vm_compute inside the lift proof (whole-run evaluation on symbolic states), the "
+    "cross-check table and the regression sessions",
     "axioms: none (Print Assumptions: Closed under the global context for every C40 theorem)",
     "translator/state_py.py, translator/state_repl.py: method bodies of hy/repl.py, set_last_exc, the running interpreter's "
     "code.InteractiveInterpreter.runsource, the class linearisations of hy/errors.py + hy/reader/exceptions.py + builtins, and "
     "the exact shape of HyCommandCompiler.__call__ -> Gen/StateReplTerm.v on every run",
     "State/EvalRestoreSem.v: fragment semantics (hand-written, modelled-not-verified); tie = scripted-session correspondence "
     "with the real REPL object (compile / code objects / output_fn replaced by scripts) in this check",
-    "State/Repl.v: abstract machine `step` and the scripting of opaque parts; the link generated code = step is by "
-    "computation on tables (not for all values)",
+    "State/Repl.v: abstract machine `step`, the scripting of the opaque parts by `input`s (one_pure), and the modelling choice "
+    "that *e / _hy_exc_info / got_value exist from the start with value None/False (the code only writes them or reads them "
+    "with .get)",
     "harness: session generators, reference evaluation, canonicalisation",
 ]
 
